@@ -392,7 +392,50 @@ def standin_other_gates(tier, seed):
                 bound="10 expression lists x 3 angles; QFT / phase gradient on 1-4 qubits; diagonal gates on 1-3 qubits; all permutations of 3 (+3); 6 uniform superpositions",
                 cases=cases, distinct=cases, failures=len(fails), exhaustive=False, _fails=uniq[:4])
 standin_other_gates.prop = "C03"
-STANDINS = [standin_channels, standin_numeric_grid, standin_other_gates, standin_probabilistic_gates]
+def standin_placements(tier, seed):
+    """multi-qubit library gates placed on qubits in every order and of every kind (line, grid, line qudits of dimension 2, named): expanding the
+    operation by its own decomposition gives the gate's matrix (up to global phase) whatever the placement (some gates choose their decomposition
+    by the adjacency of the qubits they are placed on)"""
+    import itertools
+
+    import cirq
+
+    cases, fails = 0, []
+    gates = [cirq.CSWAP, cirq.CCZ, cirq.CCX, cirq.CCZ ** 0.3, cirq.CCX ** -0.4, cirq.SWAP, cirq.SWAP ** 0.5, cirq.ISWAP, cirq.ISWAP ** 0.3, cirq.CNOT ** 0.7, cirq.CZ ** 0.2, cirq.FSimGate(0.4, 0.9), cirq.PhasedFSimGate(0.3, 0.2, 0.5, 0.1, 0.7),
+             cirq.XX ** 0.3, cirq.YY ** 0.4, cirq.ZZ ** 0.6, cirq.PhasedISwapPowGate(phase_exponent=0.2, exponent=0.6), cirq.givens(0.7), cirq.QuantumFourierTransformGate(3), cirq.PhaseGradientGate(num_qubits=3, exponent=0.4),
+             cirq.ThreeQubitDiagonalGate([0.1, 0.2, 0.3, 0.5, 0.7, 1.1, 1.3, 1.7]), cirq.DiagonalGate([0.2, 0.5, 0.9, 1.4]), cirq.QubitPermutationGate([2, 0, 1]), cirq.ControlledGate(cirq.ISWAP ** 0.5), cirq.ControlledGate(cirq.Y ** 0.3, num_controls=2),
+             cirq.MatrixGate(cirq.testing.random_unitary(4, random_state=3)), cirq.MatrixGate(cirq.testing.random_unitary(8, random_state=4))]
+    for g in gates:
+        n = cirq.num_qubits(g)
+        want = cirq.unitary(g)
+        families = {"line": cirq.LineQubit.range(n), "spread line": [cirq.LineQubit(3 * i) for i in range(n)], "grid row": [cirq.GridQubit(0, i) for i in range(n)], "grid corner": [cirq.GridQubit(0, 0), cirq.GridQubit(1, 0), cirq.GridQubit(1, 1)][:n],
+                    "line qids": cirq.LineQid.range(n, dimension=2), "named": [cirq.NamedQubit(x) for x in "bca"[:n]]}
+        for (fname, pool), perm in itertools.product(families.items(), itertools.permutations(range(n))):
+            qs = [pool[i] for i in perm]
+            cases += 1
+            op = g.on(*qs)
+            try:
+                flat = cirq.Circuit(cirq.decompose_once(op, default=[op]))
+                got = flat.unitary(qubit_order=qs, qubits_that_should_be_present=qs)
+                deep = cirq.Circuit(cirq.decompose(op)).unitary(qubit_order=qs, qubits_that_should_be_present=qs)
+            except Exception as ex:
+                fails.append(dict(args=dict(gate=repr(g), qubits=repr(qs)), failed="placement-raised", clause=f"decomposing {g!r} on {fname} qubits in order {perm} raised {ex!r}"))
+                continue
+            for label, m in (("decompose_once", got), ("decompose", deep)):
+                if not cirq.allclose_up_to_global_phase(m, want, atol=1e-6):
+                    fails.append(dict(args=dict(gate=repr(g), qubits=repr(qs), family=fname, order=list(perm)), failed="placement-decomposition", clause=f"{label} of {g!r} placed on {fname} qubits in order {perm} is not the gate's matrix (up to global phase)"))
+                    break
+    seen, uniq = set(), []
+    for f_ in fails:
+        if f_["args"]["gate"] not in seen:
+            seen.add(f_["args"]["gate"])
+            uniq.append(f_)
+    return dict(function="cirq-core/cirq/ops/*[decompositions of multi-qubit gates by placement]", case="placements", bound=f"{len(gates)} two-/three-qubit gates x 6 qubit families x every order of the qubits",
+                cases=cases, distinct=cases, failures=len(uniq), exhaustive=True, _fails=uniq[:4])
+standin_placements.prop = "C03"
+
+
+STANDINS = [standin_channels, standin_numeric_grid, standin_other_gates, standin_probabilistic_gates, standin_placements]
 
 
 def _replay(ob, seed):
